@@ -213,6 +213,13 @@ def gen_body(rng, malformed: bool = False):
     B = rng.choice([b"B", b"bound", b"----WebKitFormBoundaryAb12", b"-x", b"a-b", b"0123456789" * 3])
     lb = rng.choice([b"\r\n", b"\r\n", b"\r\n", b"\n", b"\r"])
     pre = rng.choice([b"", b"", b"pre", b"pre" + lb + b"amble"])
+    if rng.random() < 0.2:
+        # a long preamble (longer than a part's header block): the search position left behind by the PREAMBLE state and
+        # chunk edges inside the preamble then matter for the first part
+        pre = lb.join(rng.choice([b"This is a multi-part message in MIME format.", b"x" * rng.randint(1, 80), b"--" + B + b"x",
+                                  b"-- " + B, b"-" * rng.randint(1, 5), b""]) for _ in range(rng.randint(1, 4)))
+        if not pre.strip(b"\r\n"):
+            pre = b"p" * 60
     nparts = rng.choice([0, 1, 1, 2, 3])
     out = bytearray()
     if pre:
@@ -405,6 +412,9 @@ CORPUS = [
     (b"B", b"\n--B\nContent-Disposition: form-data; name=\"a\"\n\nline1\n--Bnot\nline2\n--B\nContent-Disposition: form-data; name=\"b\"\n\n\n--B--\n"),
     (b"B", b"--B\rContent-Disposition: form-data; name=\"a\"\r\rab\r--B--\r"),
     (b"-x", b"---x\r\nContent-Disposition: form-data; name=\"a\"\r\n\r\n-\r\n---\r\n---x\r\n---x--\r\n"),
+    # a preamble longer than the first part's header block (a search position left over from the PREAMBLE state would
+    # skip the blank line that ends the headers)
+    (b"B", b"This is a multi-part message in MIME format. Ignore this text.\r\n--Bx\r\n--B\r\nContent-Disposition: form-data; name=\"a\"\r\n\r\nv\r\n--B\r\nContent-Disposition: form-data; name=\"b\"\r\n\r\nw\r\n--B--\r\n"),
 ]
 
 
